@@ -17,7 +17,7 @@ pub open spec fn peer_row_lt(a: PeerRow, b: PeerRow) -> bool {
 
 /// `s` lists exactly the values in `set`, strictly ascending
 pub open spec fn peers_listing(s: Seq<PeerRow>, set: Set<PeerRow>) -> bool {
-    &&& (forall|i: int, j: int| 0 <= i < j < s.len() ==> peer_row_lt(#[trigger] s[i], #[trigger] s[j]))
+    &&& (forall|i: int, j: int| 0 <= i < j < s.len() ==> #[trigger] peer_row_lt(s[i], s[j]))
     &&& (forall|i: int| 0 <= i < s.len() ==> #[trigger] set.contains(s[i]))
     &&& (forall|e: PeerRow| set.contains(e) ==> exists|i: int| 0 <= i < s.len() && #[trigger] s[i] == e)
 }
